@@ -169,6 +169,8 @@ class C04(Check):
             out.append({"meth": v})
         for v in range(len(IMPORT_CASES)):
             out.append({"imp": v})
+        for v in range(len(MISC_CASES)):
+            out.append({"misc": v})
         for v in range(len(VAR_CASES)):
             out.append({"var": v})
         for v in range(len(PARAM_CASES)):
@@ -181,6 +183,8 @@ class C04(Check):
     def run(self, case):
         if "meth" in case:
             return self.run_simple(case, METHOD_CASES[case["meth"]], "method")
+        if "misc" in case:
+            return self.run_simple(case, MISC_CASES[case["misc"]], "method")
         if "imp" in case:
             return self.run_simple(case, IMPORT_CASES[case["imp"]], "method")
         if "var" in case:
@@ -414,6 +418,29 @@ def _import_cases():
     return out
 
 
+def _misc_cases():
+    out = []
+    # a function whose body has an import statement of its own, called in its own module and elsewhere
+    for body in ("    import xutil\n    return a + xutil.V\n", "    from xutil import V\n    return a + V\n", "    import xutil as xu_\n    t = xu_.V\n    return a + t\n"):
+        xd = "def f(a):\n" + body + "\n\nprint(f('1'))\n"
+        files = {"xutil.py": "V = 'xutil.V'\n", "xd.py": xd, "xu.py": "import xd\nprint(xd.f('2'))\n"}
+        tag = body.split("\n")[0].strip().replace(" ", "-")
+        out.append({"name": "local-import/%s/at-def" % tag, "files": files, "module": "xd.py", "needle": "def f", "delta": 4})
+        out.append({"name": "local-import/%s/at-own-call" % tag, "files": files, "module": "xd.py", "needle": "f('1'", "delta": 0})
+        out.append({"name": "local-import/%s/at-other-call" % tag, "files": files, "module": "xu.py", "needle": "f('2'", "delta": 0})
+    # positional-only parameters, with and without defaults
+    for sig in ("v, k=3, /, o=1", "v, /, k=3, o=1", "v, k=3, /", "v, /"):
+        nargs = sig.replace("/,", "").replace(", /", "").count(",") + 1
+        calls = ["f(5)"] + (["f(5, 2)"] if nargs >= 2 else []) + (["f(5, 2, o=4)", "f(5, o=4)"] if "o=1" in sig else [])
+        names = [x.split("=")[0].strip() for x in sig.split(",") if x.strip() != "/"]
+        xd = "def f(%s):\n    return %s\n\n\n" % (sig, " * 10 + ".join(names)) + "".join("print(%s)\n" % c for c in calls)
+        for ci, c in enumerate(calls):
+            out.append({"name": "posonly/%s/call%d" % (sig.replace(" ", ""), ci), "files": {"xd.py": xd}, "module": "xd.py", "needle": c.replace(")", ""), "delta": 0})
+        out.append({"name": "posonly/%s/at-def" % sig.replace(" ", ""), "files": {"xd.py": xd}, "module": "xd.py", "needle": "def f", "delta": 4})
+    return out
+
+
+MISC_CASES = _misc_cases()
 IMPORT_CASES = _import_cases()
 METHOD_CASES = _method_cases()
 VAR_CASES = _var_cases()
